@@ -94,6 +94,9 @@ const librarySweep = `(function(){ var r = [];
  return r.join("~") })()`
 
 var sharedPrograms = []string{
+	// the outcome of every run depends on the function declarations being instantiated anew (10.5): the name was
+	// reassigned and the function object carried state at the end of the previous run
+	`function tick(){ return 1 } tick.count = (tick.count || 0) + 1; var __r = tick.count + ":" + typeof tick + ":" + (typeof __saved === "undefined" ? "first" : __saved === tick) + ":" + tick(); var __saved = tick; tick = 5; log("redeclared", __r); __r;`,
 	// error objects with stack text and an uncaught error: the first source-position queries on the shared
 	// Script / Program happen concurrently
 	`var __n = (typeof __n === "number" ? __n : 0) + 1; function sharedThrower(k){ if (k <= 0) { null.boom } return sharedThrower(k - 1) }
@@ -190,6 +193,11 @@ func makeRuntime(template *otto.Otto, spec rtSpec) *otto.Otto {
 
 // script of one runtime: its private programs, the shared script Reuse times and the shared program once
 func execute(vm *otto.Otto, spec rtSpec, script *otto.Script, program *ast.Program, reuse int) []string {
+	return executeWith(vm, spec, func() interface{} { return script }, func() interface{} { return program }, reuse)
+}
+
+// executeWith: script and program are asked for before every use (the shared ones, or freshly compiled twins)
+func executeWith(vm *otto.Otto, spec rtSpec, script, program func() interface{}, reuse int) []string {
 	var out []string
 	// the host keeps the errors of two failed parses while this and other runtimes go on parsing, and reads them
 	// only at the end: they must still describe their own source text
@@ -219,9 +227,9 @@ func execute(vm *otto.Otto, spec rtSpec, script *otto.Script, program *ast.Progr
 		}
 		if spec.Shared && i == 0 {
 			for r := 0; r < reuse; r++ {
-				out = append(out, "script:"+runOn(vm, script))
+				out = append(out, "script:"+runOn(vm, script()))
 			}
-			out = append(out, "program:"+runOn(vm, program))
+			out = append(out, "program:"+runOn(vm, program()))
 		}
 	}
 	// call every function the history and the programs left in the global scope (closures, bound functions
@@ -319,6 +327,34 @@ func serve(req json.RawMessage) json.RawMessage {
 	return b
 }
 
+// canary is what a fresh runtime computes for a fixed program touching the whole standard library (twice in one
+// program, so that drift inside a run shows too). Package-level state that earlier use has changed (a shared
+// table doubled in place, a cache keyed too coarsely) makes a later canary differ from the first one of the process.
+const canaryProbes = `[(0.5).toFixed(18), (1e20).toExponential(1), (12345678901234567890).toPrecision(4), (0.1).toFixed(20), (1.45).toFixed(1), (1e21).toExponential(5), (255).toString(36), (0.000001234).toPrecision(2), (123.456).toFixed(10), (5e-324).toString(), (1/3).toString(3)].join()`
+
+var canary0 string
+
+func canary() string {
+	vm := otto.New()
+	vm.SetStackDepthLimit(200)
+	vm.Interrupt = nil
+	runOn(vm, heap.Prelude)
+	src := "[" + canaryProbes + ", " + librarySweep + ", " + canaryProbes + ", " + librarySweep + "].join('\n')"
+	return runOn(vm, src)
+}
+
+func canaryDrift(when string) string {
+	c := canary()
+	if canary0 == "" {
+		canary0 = c
+		return ""
+	}
+	if c != canary0 {
+		return fmt.Sprintf("a fresh runtime %s no longer computes what a fresh runtime computed when this process started (state shared by all runtimes of the process was changed by earlier use):\nthen: %.600s\nnow:  %.600s", when, canary0, c)
+	}
+	return ""
+}
+
 func runCase(c raceCase) (v verdict) {
 	defer func() {
 		if p := recover(); p != nil {
@@ -338,6 +374,9 @@ func runCase(c raceCase) (v verdict) {
 			v.Sharing++
 		}
 	}
+	if d := canaryDrift("at the start of this case"); d != "" {
+		return verdict{Fail: d}
+	}
 	// ---- sequential baseline: every runtime alone ----
 	tmplA := buildTemplate(c.Setup)
 	scriptA, err := tmplA.Compile("shared.js", c.SharedSrc)
@@ -353,6 +392,24 @@ func runCase(c raceCase) (v verdict) {
 	for i, spec := range c.Runtimes {
 		vm := makeRuntime(tmplA, spec)
 		baseline[i] = execute(vm, spec, scriptA, progA, c.Reuse)
+		if spec.Shared && i < 3 {
+			// the same runtime history with the shared source submitted as TEXT every time (compiled afresh per run):
+			// a compiled Script that remembers anything from its previous run on this runtime shows as a difference
+			twin := makeRuntime(tmplA, spec)
+			viaText := executeWith(twin, spec,
+				func() interface{} { sc, _ := twin.Compile("shared.js", c.SharedSrc); return sc },
+				func() interface{} { ap, _ := parser.ParseFile(nil, "shared.js", c.SharedSrc, 0); return ap }, c.Reuse)
+			if len(viaText) == len(baseline[i]) {
+				for k := range viaText {
+					if viaText[k] != baseline[i][k] && !strings.HasPrefix(viaText[k], "trace:") && !strings.HasPrefix(viaText[k], "held-errors:") {
+						return verdict{Fail: fmt.Sprintf("runtime %d (%s) step %d: with the shared source compiled once to a Script %q, submitted as text each time %q (the Script keeps something from its previous run)\nshared: %s", i, spec.Kind, k, trunc(baseline[i][k]), trunc(viaText[k]), c.SharedSrc)}
+					}
+				}
+			}
+		}
+	}
+	if d := canaryDrift("after the sequential phase of this case"); d != "" {
+		return verdict{Fail: d}
 	}
 	if h := scriptHash(scriptA); h != hashBefore {
 		return verdict{Fail: "the compiled Script was modified by sequential execution (structural hash changed)"}
@@ -435,6 +492,9 @@ func runCase(c raceCase) (v verdict) {
 			}
 		}
 	}
+	if d := canaryDrift("after the concurrent phase of this case"); d != "" {
+		return verdict{Fail: d}
+	}
 	return v
 }
 
@@ -503,7 +563,7 @@ func countKind(c raceCase, k string) int {
 
 var raceFacet = harness.Register(&harness.Facet[raceCase]{
 	Name: "concurrent-runtimes",
-	Rule: "rapid: a template history (all heap builders plus 1-3 drawn ones), one shared source compiled once to a Script and parsed once to a Program, and 2-8 runtimes of mixed provenance (fresh, copies of the template, copies of such copies that run at the same time, the template itself; a third of them first draw from Math.random without a source of their own), each sweeping the whole standard library once or twice and then running 1-4 private programs followed by a call of every function left in the global scope (heap builders/mutators, programs touching every subsystem with package-level data: regexp, JSON, Date, sort, number formatting, Math with a per-runtime random source, URI functions, error creation and stack text, accessor descriptors, Function/eval, strings; 30% from the semantic generator), half of them with an interrupt channel, a Script reuse count 1-50, GOMAXPROCS 2/4/16, optionally Copy() of the template from several goroutines while it runs. Executed in a -race worker subprocess. Oracle: (1) no race report / fatal error (worker death is attributed to the case), (2) each runtime's results and host-free trace equal those of the same programs run alone sequentially, (3) the structural hash of the compiled Script (read-only reflection over all fields) is unchanged by execution. Non-trivial = at least two runtimes share the Script/Program or the template; distinct by case",
+	Rule: "rapid: a template history (all heap builders plus 1-3 drawn ones), one shared source compiled once to a Script and parsed once to a Program, and 2-8 runtimes of mixed provenance (fresh, copies of the template, copies of such copies that run at the same time, the template itself; a third of them first draw from Math.random without a source of their own), each sweeping the whole standard library once or twice and then running 1-4 private programs followed by a call of every function left in the global scope (heap builders/mutators, programs touching every subsystem with package-level data: regexp, JSON, Date, sort, number formatting, Math with a per-runtime random source, URI functions, error creation and stack text, accessor descriptors, Function/eval, strings; 30% from the semantic generator), half of them with an interrupt channel, a Script reuse count 1-50, GOMAXPROCS 2/4/16, optionally Copy() of the template from several goroutines while it runs. Executed in a -race worker subprocess. Oracle: (1) no race report / fatal error (worker death is attributed to the case), (2) each runtime's results and host-free trace equal those of the same programs run alone sequentially, (3) the structural hash of the compiled Script (read-only reflection over all fields) is unchanged by execution, (4) a sharing runtime gets the same results when the shared source is compiled afresh before every run instead of once (a Script that remembers its previous run), (5) stability: a fresh runtime computes the same canary (formatting probes and the library sweep) before, between and after the phases of every case as at the start of the worker process. Non-trivial = at least two runtimes share the Script/Program or the template; distinct by case",
 	Quick:    32,
 	Thorough: 40,
 	Gen: func(t *rapid.T) raceCase {
